@@ -10,7 +10,7 @@ KEYWORDS = {'namespace', 'enum', 'flags', 'static', 'const', 'main', 'interface'
 ALL_TARGETS = ['cpp', 'cppcli', 'java', 'objc', 'yaml']
 NAME_POOL = ['foo', 'bar', 'baz', 'item', 'node', 'my_type', 'T1', 'Color', 'state', 'res_code', 'Evt', 'cfg', 'x1',
              'thing', 'other', 'val', 'shape', 'Kind', 'rec_a', 'rec_b', 'iface', 'cb', 'err', 'fn_t']
-NS_POOL = ['a', 'b', 'c', 'ns1', 'inner', 'Outer', 'x_y']
+NS_POOL = ['a', 'b', 'c', 'ns1', 'inner', 'Outer', 'x_y', 'ns', 'ns10']
 MEMBER_POOL = ['a', 'b', 'c', 'd', 'first', 'second', 'x', 'y', 'value', 'count', 'name_', 'is_ok', 'data', 'idx', 'k1',
                'on_event', 'do_it', 'get_v', 'm1', 'm2']
 
